@@ -538,5 +538,39 @@ def r08_16(ctx):
     delegate(ctx, c05.r05_8, lambda c: True)
 
 
+def r08_17(ctx):
+    """R08.17 a replacing load leaves no pick behind that the file did not make: in _load_config() the default-marked choices are
+    resolved only after a selection that predates the load was dropped (`if replace and not choice._was_set:
+    choice.unset_value()` before `choice.resolve_defaults()`) - resolve_defaults() takes any recorded selection for one the
+    file made, user-sets every member and marks the choice as set, so the tail that unsets what the file did not set skips it
+    and the old pick survives (fixed defect 5.64)."""
+    repo = ctx.repo
+    f = repo.func(f"{CORE}:Kconfig._load_config")
+    ctx.analysed(f.qual)
+    loops = [n for n in ast.walk(f.node) if isinstance(n, ast.For) and isinstance(n.target, ast.Name) and any(
+        isinstance(c, ast.Call) and ast.unparse(c.func) == f"{n.target.id}.resolve_defaults" for c in ast.walk(n)) and "choice" in ast.unparse(n.iter)]
+    if not loops:
+        raise AnchorError("_load_config: the loop resolving default-marked choices was not found")
+    lp = loops[0]
+    v = lp.target.id
+    simple = (ast.If, ast.For, ast.While, ast.With, ast.Try)
+    construct = "Kconfig._load_config/a pick from before a replacing load is dropped before the marked choices are resolved"
+    drops = [n for n in ast.walk(lp) if isinstance(n, ast.Call) and ast.unparse(n.func) == f"{v}.unset_value"]
+    res = [n for n in ast.walk(lp) if isinstance(n, ast.Call) and ast.unparse(n.func) == f"{v}.resolve_defaults"]
+    ok = False
+    why = "no `unset_value()` of the choice in the loop"
+    if drops:
+        fl = Flow(f.node, resolver=Resolver(f.node), body=lp.body).run()
+        gs = {(k, p) for k, p in (fl.guards_at(drops[0]) or set())}
+        want = {("replace", True), (f"{v}._was_set", False)}
+        alt = {("replace", True), (f"{lp.iter.id if isinstance(lp.iter, ast.Name) else ast.unparse(lp.iter)}[*]._was_set", False)}
+        extra = gs - want - alt
+        ok = (want <= gs or alt <= gs) and not extra and drops[0].lineno < res[0].lineno
+        why = f"the drop runs under {sorted(gs)}" if not ok else ""
+    (ctx.ok(construct, f.loc(drops[0])) if ok else
+     ctx.bad(construct, f"{why}: after `B.set_value(y)` a replacing load of a file in which the choice is only default-marked keeps B - a fresh instance gives the default member",
+             f.loc(res[0])))
+
+
 def rules():
-    return [("R08.16", r08_16, 1), ("R08.15", r08_15, 1), ("R08.14", r08_14, 1), ("R08.13", r08_13, 4), ("R08.12", r08_12, 1), ("R08.11", r08_11, 3), ("R08.10", r08_10, 3), ("R08.9", r08_9, 5), ("R08.1", r08_1, 2), ("R08.2", r08_2, 2), ("R08.3", r08_3, 8), ("R08.5", r08_5, 3), ("R08.6", r08_6, 8), ("R08.7", r08_7, 6), ("R08.8", r08_8, 1)]
+    return [("R08.17", r08_17, 1), ("R08.16", r08_16, 1), ("R08.15", r08_15, 1), ("R08.14", r08_14, 1), ("R08.13", r08_13, 4), ("R08.12", r08_12, 1), ("R08.11", r08_11, 3), ("R08.10", r08_10, 3), ("R08.9", r08_9, 5), ("R08.1", r08_1, 2), ("R08.2", r08_2, 2), ("R08.3", r08_3, 8), ("R08.5", r08_5, 3), ("R08.6", r08_6, 8), ("R08.7", r08_7, 6), ("R08.8", r08_8, 1)]
